@@ -438,7 +438,9 @@ def rules(tier):
             # C17-ea: the initial heap is a list sorted by base_prob
             ('C17.R23', _shared_rule('c01', 'r2_heap_ownership')),
             # C17-eb: prince_ling wraps print_guess with a de-duplicating filter
-            ('C17.R24', _shared_rule('plumbing', 'who_may'))] + _loader_bundle() + []
+            ('C17.R24', _shared_rule('plumbing', 'who_may')),
+            # C17-fa: guesses counted only when print_guess returns True - write_guess_to_file (the -o writer) returns None
+            ('C17.R25', _shared_rule('c04', 'r4_count_write_pairing'))] + _loader_bundle() + []
 
 
 META = {
